@@ -26,7 +26,7 @@ import (
 	"verifharness/shapes"
 )
 
-func main() { Main("C01", check, exprgen.Gen, sdfgen.Gen, stateGen) }
+func main() { Main("C01", check, stateGen, exprgen.Gen, sdfgen.Gen) }
 
 const imp = "From Sdfx Require Import Sdf.ShapeCorr.\nOpen Scope float_scope."
 
